@@ -23,21 +23,20 @@ def make_world():
 
 
 def split_reads(w):
+    """A: everything but the novel-exon reads; B: everything but the novel-gene reads (other group names, extra unmapped read);
+       C: A's reads under another experiment name.  The experiments share most exons, each has novel exons the other lacks."""
     reads = w["reads"]
-    A = [r for i, r in enumerate(reads) if i % 2 == 0 and not r.get("unmapped")]
-    names_a = set(r["name"] for r in A)
-    # keep multi-mapper pairs together
-    A = [r for r in reads if r["name"] in names_a]
-    B = [r for r in reads if r["name"] not in names_a]
-    # B gets different group names and an extra unmapped read
-    B2 = []
-    for r in B:
+    A = [r for r in reads if not r["name"].startswith("nnic") and not r.get("unmapped")]
+    B = []
+    for r in reads:
+        if r["name"].startswith("ng") or r["name"].startswith("fsm2"):
+            continue
         r = dict(r)
         if not r.get("unmapped"):
             r["name"] = r["name"].replace("_gA", "_hX").replace("_gB", "_hY").replace("_gC", "_hX")
-        B2.append(r)
-    B2.append({"name": "unm_2", "unmapped": True})
-    return {"A": A, "B": B2, "C": [dict(r) for r in A]}
+        B.append(r)
+    B.append({"name": "unm_2", "unmapped": True})
+    return {"A": A, "B": B, "C": [dict(r) for r in A]}
 
 
 def prepare(scratch, tag):
